@@ -111,6 +111,11 @@ def device_deaths(cls):
     return 'C07 daemon killed: ' + cls
 
 
+def shutdown_deaths(cls):
+    if cls == 'exit' or cls.startswith('assert:hostlist'): return None
+    return 'C20 daemon killed instead of shutting down: ' + cls
+
+
 def any_death(cls):
     return 'daemon killed: ' + cls
 
@@ -138,7 +143,7 @@ PROPS['C13'] = dict(layers=[config.ConfigLayer()], planned=['C13_listings at dae
 PROPS['C14'] = dict(layers=[hostlist.HostlistLayer()], planned=['C14_roundtrip', 'C14_sort_perm', 'C14_three_hops'])
 PROPS['C18'] = dict(layers=[lexlayer.LexLayer()], planned=['the flex/bison automata, malloc and regcomp are not modelled: their memory safety on arbitrary input is observed under ASan/UBSan by the whole-file fuzz of this layer, not proved'])
 PROPS['C19'] = dict(layers=[redfish.RedfishLayer()], planned=['C19_bad_input (setplugs argument checks, malformed ranges) on a model of the command parser'])
-PROPS['C20'] = dict(layers=[D(P.p_c20, profile=dict(pF6=0.02, maxclients=6), leaks=True)], planned=['C20_refcount', 'C20_objects', 'C20_shutdown (signal path / teardown not modelled yet)'])
+PROPS['C20'] = dict(layers=[D(P.p_c20, profile=dict(pF6=0.02, maxclients=6), leaks=True, deaths=shutdown_deaths)], planned=['C20_refcount', 'C20_objects', 'C20_shutdown (signal path / teardown not modelled yet)'])
 PROPS['C15'] = dict(layers=[D(P.p_c15, P.p_c04, P.p_c04_quit, profile=dict(garbage=0.06, maxclients=6))], planned=['C15_stream over whole runs (needs a ghost record of bytes written in earlier passes)', 'cleanliness of the data-carrying lines through the hostlist mirror'])
 PROPS['C16'] = dict(layers=[libpm.LibPmLayer()], planned=['memory safety of the remaining C is observed under ASan, not proved'])
 PROPS['C17'] = dict(layers=[speclayer.SpecLayer()], planned=['specOK_sound: the static predicate implies no send reaches an undefined conversion and every $N read is a defined group, over the interpreter model'])
@@ -160,6 +165,70 @@ def layer_by_name(n):
     return None
 
 NOT_YET = {}
+
+
+class SteadyLayer:
+    """C20 live-heap ledger: the same cycle of requests (client connects, sends a fixed list of lines, quits; devices drop and
+    re-establish their connections) is repeated; after two warm-up cycles the live heap reported by the allocator at the end of
+    a cycle must not grow.  The cycle is repeated more often than the pool granularity of liblsd (32 objects per chunk), so one
+    object lost per request shows.  Also compared pass for pass with the model."""
+    name = 'daemon-steady-state'
+    TOL = 64
+
+    def __init__(self, quick=(16, 100), thorough=(64, 100)):
+        self.quick = quick; self.thorough = thorough
+
+    def build(self): daemon.build()
+
+    def _one(self, args):
+        seed, cycles = args
+        world = daemon.MarkerWorld(seed) if seed % 4 else None
+        sim = daemon.simulate_steady(seed, cycles=cycles, world=world)
+        V = []; st = collections.Counter(sim['stats'])
+        diffs = []
+        if seed % 4 == 1 or world is None:
+            chunks = daemon.lean_side(sim)
+            for d in daemon.compare(sim, chunks):
+                d['replay'] = dict(layer=self.name, seed=seed, cycles=cycles, at=d['at']); diffs.append(d)
+            st['steady: runs compared with the model'] += 1
+        h = sim['heaps']
+        if sim['died']:
+            V.append(dict(sig='C20 daemon killed in a steady-state run: ' + daemon.death_class(sim['stderr']), at=len(sim['ops']) - 1, detail=sim['stderr'][-1200:]))
+        elif len(h) >= 9 and None not in h:
+            # sustained growth: in the middle third and again in the last third (a buffer that grows once is not a leak)
+            n = len(h); a, b, c = h[n // 3], h[2 * n // 3], h[-1]
+            st['steady: cycles measured'] += n - n // 3
+            st['steady: largest growth of the live heap over the last third (bytes)'] = max(0, c - b)
+            if b - a > self.TOL and c - b > self.TOL:
+                growth = c - a
+                V.append(dict(sig='C20 live heap grows with every repetition of the same requests', at=sim['marks'][-1], growth_bytes=growth, cycles=n - n // 3,
+                              per_cycle=round(growth / (n - 1 - n // 3), 1), heap_at_cycle_ends=h[:4] + ['...', a, '...', b, '...', c], lines=sim['lines'],
+                              configuration=open(world.conf_path()).read()[:3000] if world else 'mixp'))
+        td = sim.get('teardown')
+        if td is not None and 'DIED' in td:
+            V.append(dict(sig='C20 shutdown path crashed: ' + daemon.death_class(sim['stderr']), at=len(sim['ops']) - 1, detail=sim['stderr'][-1500:]))
+        elif 'LeakSanitizer' in sim['stderr']:
+            V.append(dict(sig='C20 memory still allocated and unreachable at exit (LeakSanitizer)', at=len(sim['ops']) - 1, detail=sim['stderr'][sim['stderr'].index('LeakSanitizer'):][:1500]))
+        for v in V: v['replay'] = dict(layer=self.name, seed=seed, cycles=cycles, at=v.get('at', 0))
+        return dict(passes=len(sim['ops']), diffs=diffs, violations=V, stats=st, sample=dict(seed=seed, lines=sim['lines'], heap_at_cycle_ends=h[:6]))
+
+    def run(self, prop, tier, seed):
+        ns, cycles = self.quick if tier == 'quick' else self.thorough if tier == 'thorough' else (self.quick[0] * 3, self.quick[1])
+        self.build()
+        rs = pmap(self._one, [(seed * 50021 + k * 911 + 5, cycles) for k in range(ns)])
+        st = collections.Counter()
+        for r in rs:
+            for k, v in r['stats'].items():
+                if 'largest growth' in k: st[k] = max(st[k], v)
+                else: st[k] += v
+        return dict(name=self.name, evaluations=sum(r['passes'] for r in rs), distinct=sum(r['passes'] for r in rs), samples=[rs[0]['sample']], stats=dict(sorted(st.items())),
+                    diffs=[d for r in rs for d in r['diffs']], violations=[v for r in rs for v in r['violations']],
+                    rule='one evaluation = one daemon pass; %d runs of %d identical cycles (8 request lines drawn per run; mixp or a generated configuration); live heap (ASan allocator statistics) at cycle ends: a violation is growth by more than %d bytes over the middle third of the cycles and again over the last third (each third repeats every request more than 32 times, the pool granularity of liblsd); three of four runs on generated configurations, one in four also compared with the model' % (ns, cycles, self.TOL))
+
+    def replay(self, rp, v):
+        world = daemon.MarkerWorld(rp['seed']) if rp['seed'] % 4 else None
+        sim = daemon.simulate_steady(rp['seed'], cycles=rp['cycles'], world=world)
+        print('request lines of one cycle:', sim['lines']); print('live heap at cycle ends:', sim['heaps'])
 
 
 class PairedLayer:
@@ -241,6 +310,7 @@ class PairedLayer:
 
 PROPS['C05'] = dict(layers=[PairedLayer()], planned=['C05_noninterference through a general client phase', 'equality up to renaming of descriptor numbers', 'stutter for the other waiting states'])
 PROPS.move_to_end('C05', last=False)
+PROPS['C20']['layers'].append(SteadyLayer())
 
 
 class MarkerLayer(DaemonLayer):
